@@ -310,6 +310,10 @@ pub enum Op {
         retain: bool,
     },
     DropRetained(usize),
+    /// the host edits a value it holds, in place if it is the sole owner (`Arc::make_mut`): same
+    /// buffer address, new content — legal for the owner of a value, and the library must not have
+    /// remembered anything about the old content under that address
+    MutateRetained(usize),
     /// retained[i] + retained[j] applied by the host
     HostAdd(usize, usize, bool),
     Lookup(String),
